@@ -180,6 +180,26 @@ def run(tier: str, seed: int) -> int:
                     report("load-depends-on-previous-state", f"loading into a used engine differs in {[k for k in vu if vu[k] != vf[k]]}")
             except Exception as e:  # noqa
                 report(f"load-into-used-engine-raised-{type(e).__name__}", repr(e))
+        # the SAME parsed document loaded again after play (a checkpoint kept in memory): the first load and the play
+        # after it must not have changed it, and it must restore the same situation again
+        with C.quiet():
+            again = cls(copy.deepcopy(story))
+            kept = json.loads(text)
+            frozen = copy.deepcopy(kept)
+            try:
+                again.load_state(kept)
+                continue_history(again, story, G.gen_ops(r, r.randint(2, 6), "choose-only"))
+                if kept != frozen:
+                    report("play-after-load-changed-document", "the loaded document changed while the game was played on: "
+                           f"{[k for k in kept if kept[k] != frozen.get(k)]}")
+                again.load_state(kept)
+                v2 = R.view(again)
+                for k in vf:
+                    if k not in ("can_undo", "can_redo", "raw_content") and v2[k] != vf[k]:
+                        report(f"second-load-of-same-document-differs:{k}", f"loading the same document a second time gives other {k}",
+                               {"first": vf[k], "second": v2[k]})
+            except Exception as e:  # noqa
+                report(f"repeat-load-raised-{type(e).__name__}", repr(e))
         # same continuation on the original (history cleared) and on the loaded engine
         with C.quiet():
             eng.undo_stack.clear()
@@ -203,7 +223,15 @@ def run(tier: str, seed: int) -> int:
             stats["malformed"][tag.split(":")[0]] = stats["malformed"].get(tag.split(":")[0], 0) + 1
             with C.quiet():
                 target = cls(copy.deepcopy(story))
+                # a running game WITH history (undo and redo both available when the story allows it): a rejected
+                # load must leave that untouched too
+                for step in ("choose", "choose", "undo"):
+                    try:
+                        target.choose(0) if step == "choose" else target.undo()
+                    except Exception:  # noqa
+                        pass
                 vb = R.view(target)
+                depth_b = (len(target.undo_stack), len(target.redo_stack))
                 try:
                     target.load_state(copy.deepcopy(md))
                     accepted = True
@@ -214,9 +242,9 @@ def run(tier: str, seed: int) -> int:
                     report(f"malformed-save-raised-{type(e).__name__}:{tag}", f"load_state of a malformed document raised {e!r}",
                            {"document": md})
                 va = R.view(target)
-            if accepted is False and clean(va) != clean(vb):
-                report(f"rejected-load-changed-state:{tag}", f"ValueError but {[k for k in va if va[k] != vb[k]]} changed",
-                       {"document": md})
+            if accepted is False and (clean(va) != clean(vb) or depth_b != (len(target.undo_stack), len(target.redo_stack))):
+                changed = [k for k in va if va[k] != vb[k]] or ["undo/redo history"]
+                report(f"rejected-load-changed-state:{tag}", f"ValueError but {changed} changed", {"document": md})
             if accepted:
                 stats["accepted_mutants"] += 1
             legacy_rejected = (accepted is False and isinstance(md, dict) and md.get("current_output") is None)
